@@ -222,21 +222,20 @@ impl Bitstr {
     }
 
     pub fn to_uint(&self, order: Byteorder) -> u128 {
+        // consecutive groups of up to 8 bits counted from the start of the
+        // value, so the result does not depend on the offset in the buffer
         let mut acc: u128 = 0;
-        let mut pos = self.start();
-        let end = self.end();
-        let data_bytes = &self.data[self.bytes_range()];
         if order == BIG {
-            for byte in data_bytes {
-                let (val, n) = cut_bits(*byte, pos, end);
+            for (val, n) in self.iter8() {
                 acc = (acc << n) | (val as u128);
-                pos += n;
             }
         } else {
-            for byte in data_bytes {
-                let (val, n) = cut_bits(*byte, pos, end);
-                acc |= (val as u128) << (pos - self.start()) as u32;
-                pos += n;
+            let mut shift = 0;
+            for (val, n) in self.iter8() {
+                if shift < u128::BITS {
+                    acc |= (val as u128) << shift;
+                }
+                shift += n;
             }
         }
         acc
